@@ -370,6 +370,110 @@ def run_c13(res, tier, seed):
     res.cov["samples"] = [{"request": reqs[i], "impl": io[i], "model": mo[i]} for i in (5, n_valid // 2, n_valid + 7) if i < len(reqs)]
 
 
+def client_slice(text, rng_):
+    """the text an editor selects for an LSP range in ITS copy of the document (UTF-16 columns); None = not a valid range"""
+    lines = text.split("\n")
+    def off(pos):
+        l, c = pos["line"], pos["character"]
+        if l >= len(lines):
+            return None
+        o = sum(len(x) + 1 for x in lines[:l])
+        k = 0
+        for i, ch in enumerate(lines[l]):
+            if k == c:
+                return o + i
+            k += u16(ch)
+            if k > c:
+                return None
+        return o + len(lines[l]) if k == c else None
+    a, b = off(rng_["start"]), off(rng_["end"])
+    if a is None or b is None or a > b:
+        return None
+    return text[a:b]
+
+
+def run_c14_e2e(res, tier, seed):
+    """positions the SERVER sends (handler.rs: locations, highlights, rename edits, prepare-rename ranges) in a project of
+    several documents with different line tables: the editor slices its own copy of the named document"""
+    import shutil, lsp
+    lsp.build_glas()
+    rng = random.Random(seed * 31 + 14)
+    base = os.path.join(common.ROOT, "work", f"c14-{os.getpid()}")
+    shutil.rmtree(base, ignore_errors=True)
+    wide = ["ß", "ℝ", "💣", "é", "𝒳", "\u2028", "a", " "]
+    def noise(n):
+        return "".join(rng.choice(wide) for _ in range(n))
+    try:
+        for k in range(4 if tier == "quick" else 60):
+            root = f"{base}/p{k}"
+            os.makedirs(root + "/src")
+            open(root + "/gleam.toml", "w").write('name = "p"\n')
+            lib = (f"// {noise(rng.randrange(0, 40))}\n" * rng.randrange(0, 4) +
+                   f"pub const k = \"{noise(rng.randrange(0, 12))}\" pub fn target() {{ \"{noise(rng.randrange(0, 9))}\" }}\n" +
+                   f"// {noise(rng.randrange(0, 60))}\n" * rng.randrange(0, 3) +
+                   f"pub fn other() {{ #(\"{noise(rng.randrange(0, 9))}\", target(), \"{noise(3)}\", target()) }}\n")
+            main = (f"import lib\n" + f"// {noise(rng.randrange(0, 30))}\n" * rng.randrange(0, 3) +
+                    f"pub fn main() {{ #(\"{noise(rng.randrange(0, 15))}\", lib.target(), \"{noise(2)}\", lib.target()) }}\n")
+            third = f"import lib\npub fn third() {{ lib.target() }}\n// {noise(8)}\n"
+            texts = {"lib": lib, "main": main, "third": third}
+            for n, t in texts.items():
+                open(f"{root}/src/{n}.gleam", "w").write(t)
+            uri = {n: f"file://{root}/src/{n}.gleam" for n in texts}
+            byuri = {u: n for n, u in uri.items()}
+            c = lsp.Lsp(root)
+            try:
+                if c.initialize() is None:
+                    continue
+                for n in ("main", "lib", "third"):
+                    c.notify("textDocument/didOpen", {"textDocument": {"uri": uri[n], "languageId": "gleam", "version": 1, "text": texts[n]}})
+                def pos_of(n, needle, nth=0, delta=0):
+                    t = texts[n]
+                    i = -1
+                    for _ in range(nth + 1):
+                        i = t.index(needle, i + 1)
+                    i += delta
+                    line = t.count("\n", 0, i)
+                    col = sum(u16(ch) for ch in t[t.rfind("\n", 0, i) + 1:i])
+                    return {"line": line, "character": col}
+                asks = [("main", "lib.target", 0, 4), ("main", "lib.target", 1, 4), ("lib", "fn target", 0, 3), ("lib", "target()", 1, 0), ("third", "lib.target", 0, 4)]
+                for (n, needle, nth, delta) in asks:
+                    p = {"textDocument": {"uri": uri[n]}, "position": pos_of(n, needle, nth, delta)}
+                    got = []        # (what, uri, range)
+                    r = c.request("textDocument/definition", p, timeout=30)
+                    for loc in ((r or {}).get("result") or []) if isinstance((r or {}).get("result"), list) else ([r["result"]] if (r or {}).get("result") else []):
+                        got.append(("definition", loc.get("uri") or loc.get("targetUri"), loc.get("range") or loc.get("targetSelectionRange")))
+                    r = c.request("textDocument/references", dict(p, context={"includeDeclaration": True}), timeout=30)
+                    for loc in ((r or {}).get("result") or []):
+                        got.append(("references", loc["uri"], loc["range"]))
+                    r = c.request("textDocument/documentHighlight", p, timeout=30)
+                    for h in ((r or {}).get("result") or []):
+                        got.append(("documentHighlight", uri[n], h["range"]))
+                    r = c.request("textDocument/prepareRename", p, timeout=30)
+                    pr = (r or {}).get("result")
+                    if isinstance(pr, dict):
+                        got.append(("prepareRename", uri[n], pr.get("range") or pr))
+                    r = c.request("textDocument/rename", dict(p, newName="zq9"), timeout=30)
+                    for u, edits in (((r or {}).get("result") or {}).get("changes") or {}).items():
+                        for e in edits:
+                            got.append(("rename", u, e["range"]))
+                    res.cov["evaluations"] += len(got)
+                    for (what, u, rg) in got:
+                        name = byuri.get(u) or byuri.get("file://" + os.path.normpath(u[7:]))
+                        if name is None or not isinstance(rg, dict) or "start" not in rg:
+                            continue
+                        sel = client_slice(texts[name], rg)
+                        if sel != "target":
+                            res.add_violation("C14/server-range-selects-other-text",
+                                              f"{what} asked in {n}.gleam: the range {rg['start']['line']}:{rg['start']['character']}-{rg['end']['line']}:{rg['end']['character']} "
+                                              f"in {name}.gleam selects {sel!r} in the editor's copy, not `target`",
+                                              {"texts": texts, "asked_in": n, "position": p["position"], "request": what, "answer_uri": u, "answer_range": rg})
+                            break
+            finally:
+                c.close()
+    finally:
+        shutil.rmtree(base, ignore_errors=True)
+
+
 # ---------------- C19 (encoder half) ----------------
 def decode_tokens(s):
     """LSP relative decoding -> [(line, start, length, type)]"""
@@ -591,6 +695,8 @@ def run(prop, res, tier, seed):
         if not os.path.exists(common.DRIVER_BIN):
             return
     {"C13": run_c13, "C14": run_c14, "C19": run_c19}[prop](res, tier, seed)
+    if prop == "C14":
+        run_c14_e2e(res, tier, seed)
     if prop == "C19":
         run_c19_tagging(res, tier, seed)
     if prop == "C13":
